@@ -1112,10 +1112,11 @@ where
                     ..
                 }) = self.ports.get_mut(&port)
                 {
-                    if !remote_receiver_closed.load(Ordering::Relaxed) {
-                        // Disable credits provider.
-                        sender_credit_provider.close(false);
+                    // Disable credits provider, also after a preceding graceful close,
+                    // since no more credits will be returned from now on.
+                    sender_credit_provider.close(false);
 
+                    if !remote_receiver_closed.load(Ordering::Relaxed) {
                         // Send hangup notifications.
                         remote_receiver_closed.store(true, Ordering::Relaxed);
                         let notifies = remote_receiver_closed_notify.lock().unwrap().take().unwrap();
